@@ -164,6 +164,7 @@ class ExtRecorder(Py27Recorder):
         self._run_tags = set()
         self._test_tags = None
         self._ok = True
+        self.shouldStop = False  # a fresh run, like testtools' own results
         self.log.add("startTestRun")
 
     def startTest(self, test):
